@@ -455,6 +455,9 @@ pub fn expr_to_source_with_scope(
             return_expr,
         } => {
             let mut result = "do {".to_string();
+            // Names assigned by the block shadow captured values from then on
+            let mut block_scope = scope.clone();
+            let scope = &mut block_scope;
             for stmt in statements {
                 // Leading comments
                 for comment in &stmt.leading {
@@ -465,6 +468,9 @@ pub fn expr_to_source_with_scope(
                     "\n  {}",
                     expr_to_source_with_scope(&stmt.node, scope)
                 ));
+                if let Expr::Assignment { ident, .. } = &stmt.node.node {
+                    scope.shift_remove(ident);
+                }
                 // Trailing comment
                 if let Some(trailing) = &stmt.trailing {
                     result.push_str(&format!("  {}", trailing));
